@@ -419,6 +419,9 @@ package security
 //@   nocall [C19] caller_context_threaded3: context.TODO
 //@   requires given: a.config != nil && a.stream != nil && clientAd != nil && a.stream.gcm == nil
 //@   assert before call setupStreamEncryption #1 session_key: arg1.SessionResumed && ref(arg1.sharedSecret) == ref(entry.keyInfo.Data) && len(arg1.sharedSecret) == len(entry.keyInfo.Data) && aesName(arg1.NegotiatedCrypto)
+// A renewed session is re-filed in the cache it was found in - never copied into a second cache, where an invalidation
+// of the first would miss it (C06: an invalidated session is not resumed).
+//@   assert before call SessionCache).Store #1 renewed_where_it_lives: [C06] arg0 == lastrecv_LookupNonExpired
 //@   assert before call SessionEntry).RenewLease #1 only_keyed_sessions: entry != nil && entry.keyInfo != nil && len(entry.keyInfo.Data) > 0 && aesName(entry.keyInfo.Protocol)
 //@   ensures keyed_or_refused: [C06] err == nil ==> result != nil && sealingOn(a.stream) && len(result.sharedSecret) == 32 && result.SessionResumed && result.Encryption
 //@   ensures refused_without_result: [C06] err != nil ==> result == nil
@@ -537,6 +540,7 @@ package security
 //@ func (*Authenticator).sendNegotiationFailureResponse (a, ctx, negotiation, negErr)
 //@   props C10
 //@   assert before call Message).PutClassAd #1 denial_is_explicit: [C10] adKind[arg2]["ReturnCode"] == 1 && adStr[arg2]["ReturnCode"] == "DENIED"
+//@   ensures denial_goes_out: [C10] calleefailed || lastres_FinishMessage == nil
 //@   nocall [C19] caller_context_threaded: context.Background
 //@   nocall [C19] caller_context_threaded2: context.WithoutCancel
 //@   nocall [C19] caller_context_threaded3: context.TODO
